@@ -186,6 +186,10 @@ def run_driver(module, args=(), env=None, timeout=3600, input_obj=None):
             json.dump(input_obj, f)
         e["VERIF_IN"] = inp
     cmd = [PY, "-m", "harness.drivers." + module] + [str(a) for a in args]
+    if os.environ.get("VERIF_COVERAGE_DIR"):
+        # diagnostic only (tools/coverage_gap.sh): which library lines do the drivers of a check execute at all
+        cmd = [PY, "-m", "coverage", "run", "--parallel-mode", "--data-file=" + os.path.join(os.environ["VERIF_COVERAGE_DIR"], ".coverage"),
+               "--source=" + os.path.join(REPO, "src", "autobahn"), "-m", "harness.drivers." + module] + [str(a) for a in args]
     p = subprocess.run(cmd, cwd=VERIF, env=e, stdout=subprocess.PIPE, stderr=subprocess.PIPE, timeout=timeout)
     try:
         if p.returncode != 0 or not os.path.exists(out):
